@@ -21,7 +21,7 @@ RULE = ('SP with 2-5 flows and positive priorities (ties allowed) under workload
 REAL = ['onl.scheduler.sp.SP', 'onl.scheduler.base', 'onl.sim kernel']
 STUBS = ['injector, taps, recording sink']
 ASSUMPTIONS = ['same-instant leniency: packets arriving at the very instant of a service start never cause an alarm']
-PROBES = ['empty_packets', 'ge2_levels_backlogged', 'urgent_arrival_during_lower_transmission']
+PROBES = ['compared_with_bare_twin', 'library_port_downstream', 'empty_packets', 'ge2_levels_backlogged', 'urgent_arrival_during_lower_transmission']
 
 
 def gen(rng, tier):
@@ -49,6 +49,7 @@ def run(case):
             viol.append(('C13.2', 'non-preemptive service: ' + msg))
     if case.get('empty_packets'):
         stats['empty_packets'] = 1
+    viol += sched.twin_check(r, case, ID, stats)
     res = {'viol': viol, 'digest': digest_of(r.w.log), 'nontrivial': bool(stats.get('ge2_levels_backlogged')),
            'stats': stats, 'simtime': float(r.w.env.now), 'steps': r.w.steps}
     if case.get('_excerpt'):
